@@ -12,7 +12,7 @@ Statically decided clauses:
   4. configuration guards (compile-fail witnesses, thorough tier) (R9)
 Not decided: restore-exactly arithmetic (refill/flush thresholds), head export/import identity.
 """
-from vlib import sym, rules, effects, dbm as dbmmod
+from vlib import pow2, sym, rules, effects, dbm as dbmmod
 from vlib.facts import callee
 
 CHAIN = 'stream::chain::ChainCoder'
@@ -331,7 +331,7 @@ def check_marker_sentinel(ctx, F):
     word is emitted.  Both facts are read from the MIR (seed of the accumulator before the fill loop; constant the drain
     loop compares the head with)."""
     AGG_HEADS = 'stream::chain::ChainCoderHeads'
-    for suffix in ('binary', 'compressed'):
+    for suffix in ('binary', 'compressed', 'remainders'):
         imp = method_of(F, 'from_' + suffix)
         exp = method_of(F, 'into_' + suffix)
         key = 'R4/marker-sentinel/%s/%s' % (CHAIN, suffix)
@@ -369,10 +369,16 @@ def check_marker_sentinel(ctx, F):
                 for a, c in ((t[2], t[3]), (t[3], t[2])):
                     if isinstance(a, tuple) and a[0] == 'loop' and tuple(a[2][-2:]) == RH and isinstance(c, tuple) and c[0] == 'k':
                         consts.add(c[1])
+                    elif isinstance(a, tuple) and a[0] == 'loop' and tuple(a[2][-2:]) == RH and pow2.p2(c) is not None:
+                        consts.add('2^..: ' + pow2.p2(c).show())
         if len(seeds) != 1 or '?' in seeds or len(consts) != 1:
             ctx.unresolved('R4', role, CHAIN, 'importer seeds %s, exporter compares the head with %s' % (sorted(seeds), sorted(consts)), key=key)
             continue
         seed, const = list(seeds)[0], list(consts)[0]
+        if const not in ('one', 'zero'):
+            ctx.bad('R4', role, CHAIN, 'into_%s stops draining the remainders head at %s: the words of the head above that bound are written differently from how from_%s reads them back (a head that is an exact power of 2^Word::BITS loses its top word)' % (
+                suffix, const.replace('2^..: ', ''), suffix), key=key, loc=rules.loc(exp))
+            continue
         if (seed == 'marker') == (const == 'one') and const in ('one', 'zero'):
             ctx.ok('R4', role, CHAIN, 'from_%s seeds the head with %s; into_%s drains it while it differs from / exceeds %s()' % (suffix, 'the constant 1' if seed == 'marker' else 'the first data word', suffix, const), key=key)
         else:
@@ -547,9 +553,51 @@ def method_of(F, name):
     return out[0] if out else None
 
 
+def check_no_stale_heads(ctx, F):
+    """A function that consumes a chain coder and hands back a coder (the precision changers, the conversions) builds the
+    result from the coder *as it is at that point*: when a `&mut self` helper ran on the way (a refill or a flush of the
+    remainders head pops or pushes a word and rewrites the head), no part of the returned value may be a copy of `self`
+    taken before that call.  Otherwise the word moved by the helper is lost and the head bound it restored is undone."""
+    n = 0
+    for b in F.bodies:
+        if b.promoted is not None or b.self_adt != CHAIN or b.dk != 'AssocFn' or '::tests::' in b.defpath or b.receiver_kind() not in ('self', 'mut self'):
+            continue
+        ev, paths = rules.evaluate(b)
+        if not paths:
+            continue
+        key = 'R1/no-stale-heads/' + b.defpath
+        role = 'the returned coder is built from the state after the last helper call'
+        bad = None
+        seen = False
+        for r in paths:
+            if r.end != 'return' or r.ret is None:
+                continue
+            muts = [e for e in r.events if e['kind'] == 'call' and e.get('uid') is not None and any(p == (1,) or p[:2] == (1, ('f', 'heads')) for p in e['mut_paths'])]
+            if not muts:
+                continue
+            lits = [x for x in sym.subterms(r.ret) if isinstance(x, tuple) and x and x[0] == 'agg' and isinstance(x[1], tuple) and x[1][0] == 'adt' and x[1][1] in (CHAIN, 'stream::chain::ChainCoderHeads')]
+            if not lits:
+                continue
+            seen = True
+            stale = [x for l in lits for x in sym.subterms(l) if isinstance(x, tuple) and x and x[0] == 'in' and x[1][0] == 1 and ('f', 'heads') in x[1]]
+            if stale:
+                bad = 'after %s ran, the returned coder still contains %s - the value from before the call: the word the helper moved is lost and the head is back below its bound' % (
+                    muts[-1]['callee'].split('::')[-1], sym.path_str(stale[0][1]))
+        if not seen:
+            continue
+        n += 1
+        ctx.touch(b)
+        if bad:
+            ctx.bad('R1', role, b.defpath, bad, key=key, loc=rules.loc(b))
+        else:
+            ctx.ok('R1', role, b.defpath, 'every part of the result that comes from `self` is read after the last mutating helper', key=key)
+    ctx.extra['consuming_functions_with_helper_calls'] = n
+
+
 def run(ctx):
     F = ctx.F
     check_out_of_data(ctx, F)
+    check_no_stale_heads(ctx, F)
     check_precision_changers(ctx, F)
     check_heads_closed(ctx, F)
     check_marker_sentinel(ctx, F)
